@@ -1,11 +1,197 @@
+import OdmlModel.Model.Clone
 import Driver.Util
 import Driver.Loop
 open Lean Drv
 
+/-
+Driver of C11. One request = one case:
+  {"init":[obj…], "ops":[op…]}
+`init` is a table of objects in creation order ({"kind","name","id","attrs","parent","vals","merged"},
+parent / merged = table index or null). Objects and caller-held lists are addressed by their index in
+two tables (`objs`, `lists`) which the harness keeps in the same way on the implementation side:
+every object of a tree returned by clone / export_leaf is registered in the order node, sections
+(recursively), properties; new_obj / get_values / new_list register their result.
+Answer: {"steps":[{"out":…,"snap":…}…]} with a snapshot of every parentless registered object (tree,
+values resolved through the cells, table index of every node) and of every list after each op.
+Trusted glue, outside the proofs.
+-/
 namespace DrvC11
+open Clone
 
-/-- Stub: replaced when the model of C11 is built. -/
-def handle (_j : Json) : Except String Json := throw "model of C11 not built"
+structure St where
+  h : H
+  objs : Array Nat
+  lists : Array Nat
+
+def decLit (j : Json) : Except String Lit :=
+  match j.getObjValAs? String "a" with
+  | .ok s => pure (.atom s)
+  | .error _ => do
+    let xs ← getArr j "t"
+    let ss ← xs.toList.mapM (fun x => x.getStr?)
+    pure (.tup ss)
+
+def decLits (j : Json) (k : String) : Except String (List Lit) := do
+  let xs ← getArr j k
+  xs.toList.mapM decLit
+
+def decKind (s : String) : Except String Kind :=
+  match s with
+  | "doc" => pure .doc
+  | "sec" => pure .sec
+  | "prop" => pure .prop
+  | _ => throw s!"bad kind {s}"
+
+def kindStr : Kind → String
+  | .doc => "doc"
+  | .sec => "sec"
+  | .prop => "prop"
+
+def optNat (j : Json) (k : String) : Option Nat :=
+  match j.getObjValAs? Nat k with
+  | .ok n => some n
+  | .error _ => none
+
+def strList (j : Json) (k : String) : Except String (List String) := do
+  let xs ← getArr j k
+  xs.toList.mapM (fun x => x.getStr?)
+
+def idxOf (a : Array Nat) (x : Nat) : Json :=
+  match a.toList.findIdx? (· == x) with
+  | some i => jnat i
+  | none => Json.null
+
+def encItems (h : H) (items : List Item) : Json :=
+  jarr (items.map fun
+    | .atom s => jstr s
+    | .ref t => jarr ((h.tcell t).map jstr))
+
+partial def encTree (st : St) (x : Nat) : Json :=
+  let n := st.h.node x
+  jobj [("h", idxOf st.objs x), ("k", jstr (kindStr n.kind)), ("n", jstr n.name), ("id", jnat n.id),
+        ("a", jarr (n.attrs.map jstr)),
+        ("v", match n.vals with | some c => encItems st.h (st.h.vcell c) | none => Json.null),
+        ("m", match n.merged with | some m => idxOf st.objs m | none => Json.null),
+        ("s", jarr (n.secs.map (encTree st))), ("p", jarr (n.props.map (encTree st)))]
+
+def snap (st : St) : Json :=
+  let roots := (List.range st.objs.size).filterMap fun i =>
+    let x := st.objs[i]!
+    if (st.h.node x).parent.isNone then some (toString i, encTree st x) else none
+  jobj [("roots", Json.mkObj roots),
+        ("lists", jarr (st.lists.toList.map fun c => encItems st.h (st.h.vcell c)))]
+
+/-- Registers the tree at `x`: node, sections (recursively), properties. -/
+partial def register (h : H) (objs : Array Nat) (x : Nat) : Array Nat :=
+  let objs := objs.push x
+  let objs := (h.node x).secs.foldl (fun o s => register h o s) objs
+  (h.node x).props.foldl (fun o p => o.push p) objs
+
+def build (init : Array Json) : Except String St := do
+  let mut h : H := Clone.empty
+  let mut objs : Array Nat := #[]
+  let mut maxId := 0
+  for o in init do
+    let k ← decKind (← getStr o "kind")
+    let id ← getNat o "id"
+    let name ← getStr o "name"
+    let attrs ← strList o "attrs"
+    let (h1, x) := allocN h { kind := k, name := name, id := id, attrs := attrs, parent := none,
+                              secs := [], props := [], vals := none, merged := none }
+    h := h1
+    if k == .prop then
+      h := setValuesLits h x (← decLits o "vals")
+    match optNat o "parent" with
+    | some pi =>
+      let p := objs[pi]!
+      h := setChildList h p (k != .prop) (fun l => l ++ [x])
+      h := updN h x (fun n => { n with parent := some p })
+    | none => pure ()
+    objs := objs.push x
+    if id ≥ maxId then maxId := id + 1
+  -- second pass: merged references
+  let mut i := 0
+  for o in init do
+    match optNat o "merged" with
+    | some mi =>
+      let tgt := objs[mi]!
+      h := updN h objs[i]! (fun n => { n with merged := some tgt })
+    | none => pure ()
+    i := i + 1
+  h := { h with nextId := maxId }
+  pure { h := h, objs := objs, lists := #[] }
+
+def obj (st : St) (j : Json) (k : String) : Except String Nat := do
+  let i ← getNat j k
+  -- an index the model's table does not have (the implementation registered something the model
+  -- did not create) is answered by the model as "not an object", never as a protocol error
+  pure (st.objs[i]?.getD 1000000000)
+
+def lst (st : St) (j : Json) (k : String) : Except String Nat := do
+  let i ← getNat j k
+  pure (st.lists[i]?.getD 1000000000)
+
+def decOp (st : St) (j : Json) : Except String Op := do
+  let o ← getStr j "o"
+  match o with
+  | "clone" => pure (.clone (← obj st j "x") (← getBool j "children") (← getBool j "keep"))
+  | "export" => pure (.exportLeaf (← obj st j "x"))
+  | "get_values" => pure (.getValues (← obj st j "p"))
+  | "set_values_from" => pure (.setValuesFrom (← obj st j "p") (← lst st j "l"))
+  | "set_values" => pure (.setValuesLits (← obj st j "p") (← decLits j "v"))
+  | "append_value" => pure (.appendValue (← obj st j "p") (← decLit (← getVal j "v")))
+  | "set_value_at" => pure (.setValueAt (← obj st j "p") (← getNat j "i") (← decLit (← getVal j "v")))
+  | "set_dtype" => pure (.setDtype (← obj st j "p") (← getStr j "v"))
+  | "new_list" => pure (.newList (← decLits j "v"))
+  | "list_append" => pure (.listAppend (← lst st j "l") (← decLit (← getVal j "v")))
+  | "list_set" => pure (.listSet (← lst st j "l") (← getNat j "i") (← decLit (← getVal j "v")))
+  | "list_del" => pure (.listDel (← lst st j "l") (← getNat j "i"))
+  | "list_inner_set" =>
+    pure (.listInnerSet (← lst st j "l") (← getNat j "i") (← getNat j "j") (← getStr j "s"))
+  | "new_obj" =>
+    pure (.newObj (← decKind (← getStr j "kind")) (← getStr j "name") (← strList j "attrs")
+      (← decLits j "v"))
+  | "append" => pure (.append (← obj st j "p") (← obj st j "x"))
+  | "remove" => pure (.remove (← obj st j "p") (← obj st j "x"))
+  | "rename" => pure (.rename (← obj st j "x") (← getStr j "new"))
+  | "set_attr" => pure (.setAttr (← obj st j "x") (← getNat j "i") (← getStr j "v"))
+  | "new_id" => pure (.newId (← obj st j "x"))
+  | _ => throw s!"unknown op {o}"
+
+def errStr : Err → String
+  | .keyError => "KeyError"
+  | .valueError => "ValueError"
+  | .indexError => "IndexError"
+  | .typeError => "TypeError"
+  | .attributeError => "AttributeError"
+  | .fuel => "RecursionError"
+
+def exec (st : St) (op : Op) : St × Json :=
+  let (h1, r) := step st.h op
+  let st1 := { st with h := h1 }
+  match r with
+  | .err e => (st1, jobj [("raised", jstr (errStr e))])
+  | .ok ret =>
+    match op with
+    | .clone .. | .exportLeaf .. =>
+      let objs := register h1 st1.objs ret
+      ({ st1 with objs := objs }, jobj [("ok", idxOf objs ret)])
+    | .newObj .. => ({ st1 with objs := st1.objs.push ret }, jobj [("ok", jnat st1.objs.size)])
+    | .getValues .. | .newList .. =>
+      ({ st1 with lists := st1.lists.push ret }, jobj [("ok", jnat st1.lists.size)])
+    | _ => (st1, jobj [("ok", Json.null)])
+
+def handle (j : Json) : Except String Json := do
+  let init ← getArr j "init"
+  let ops ← getArr j "ops"
+  let mut st ← build init
+  let mut steps : Array Json := #[jobj [("out", Json.null), ("snap", snap st)]]
+  for oj in ops do
+    let op ← decOp st oj
+    let (st1, out) := exec st op
+    st := st1
+    steps := steps.push (jobj [("out", out), ("snap", snap st)])
+  pure (jobj [("steps", Json.arr steps)])
 
 end DrvC11
 
